@@ -85,4 +85,6 @@ def run(ctx):
         ctx.note_scenario(s)
         ctx.count("how_" + s["how"])
     base.run_twin(ctx, "copy_vs_original", scns)
+    large = [TW.gen_c19_large(ctx.seed, i) for i in range(ctx.scale(12, 120))]
+    base.run_twin(ctx, "copy_vs_original", large, shrink=False)
     fresh_interpreter(ctx, [s for s in scns[:ctx.scale(60, 600)] if (s["cfg"].get("binz") is None or True)])
